@@ -1,5 +1,6 @@
 import JivaVerif.Lemmas.InVol
 import JivaVerif.Lemmas.Widen
+import JivaVerif.Lemmas.Window
 /-!
 # C07 — a rebuilt replica is byte-identical to its source before it serves reads (replica part)
 
@@ -69,6 +70,56 @@ theorem c07_reads_after_promotion (s : DD β) (hs : WF s) (h : File β) (hw : Sa
   unfold live
   rw [et]
   exact c07_identical s h hw s.top u
+
+/-! ### foreground writes inside `UpdateLUNMap`'s window
+
+`Server.UpdateLUNMap` releases the server lock while it scans the extents (`PreloadLunMap`) and takes it
+again for the merge: foreground writes land in between.  They reach the rebuilding replica as whole
+blocks (the controller widens every request while it is attached). -/
+
+/-- the state after a list of whole-block writes `(first block, number of blocks, data)` -/
+def windowWrites (d : DD β) (ws : List (Nat × Nat × (Nat → β))) : DD β :=
+  ws.foldl (fun d w => d.fullWrite w.1 w.2.1 w.2.2) d
+
+theorem windowWrites_later (d0 : DD β) (h0 : WF d0) (ws : List (Nat × Nat × (Nat → β)))
+    (hr : ∀ w ∈ ws, w.1 + w.2.1 ≤ d0.nb) :
+    ∀ d, Later d0 d → WF d → Later d0 (windowWrites d ws) ∧ WF (windowWrites d ws) := by
+  induction ws with
+  | nil => intro d l h; exact ⟨l, h⟩
+  | cons w ws ih =>
+    intro d l h
+    have hw := hr w List.mem_cons_self
+    have := ih (fun x hx => hr x (List.mem_cons_of_mem _ hx)) (d.fullWrite w.1 w.2.1 w.2.2)
+      (later_fullWrite d0 d l w.1 w.2.1 w.2.2) (wf_fullWrite d h w.1 w.2.1 w.2.2 (by rw [l.nb]; exact hw))
+    exact this
+
+/-- **C07 (writes inside the window of `UpdateLUNMap`).** The extents are scanned in state `d0`; ANY
+    list of whole-block foreground writes lands before the merge.  The merged replica satisfies the
+    invariant — its location map is sound, every punch request it queued (also those for the copies
+    the writes shadowed) is safe for every retained user snapshot — no content changes, and every unit
+    reads the volume as the writes left it. -/
+theorem c07_window_writes (d0 : DD β) (h0 : WF d0) (ws : List (Nat × Nat × (Nat → β)))
+    (hr : ∀ w ∈ ws, w.1 + w.2.1 ≤ d0.nb) :
+    WF (d0.lunmapAfter (windowWrites d0 ws)) ∧
+    (∀ i u, (d0.lunmapAfter (windowWrites d0 ws)).view i u = (windowWrites d0 ws).view i u) ∧
+    ∀ u, u / d0.bs < d0.nb → (d0.lunmapAfter (windowWrites d0 ws)).readUnit u = (windowWrites d0 ws).live u := by
+  obtain ⟨l, h⟩ := windowWrites_later d0 h0 ws hr d0 (Later.refl d0) h0
+  have w := wf_lunmapAfter d0 _ h0 h l
+  refine ⟨w, fun _ _ => rfl, ?_⟩
+  intro u hu
+  have e1 : (d0.lunmapAfter (windowWrites d0 ws)).bs = d0.bs := l.bs
+  have e2 : (d0.lunmapAfter (windowWrites d0 ws)).nb = d0.nb := l.nb
+  rw [readUnit_eq_live _ w u (by rw [e1, e2]; exact hu)]
+  rfl
+
+/-- the guard matters (seed C07d): with `≥` instead of `>` the merge would queue the copy held by the
+    latest user-created snapshot itself, and applying that request changes the snapshot's image — a
+    concrete instance (a test) -/
+example :
+    let d0 : DD Nat := (((DD.init 2 2).fullWrite 0 2 (fun u => 10 + u)).snapshot true).setPunch true
+    let d := d0.fullWrite 0 1 (fun u => 90 + u)
+    (d0.lunmapAfter d).pend = [] ∧ (d0.lunmapAfter d).view 1 0 = 10 := by decide
+
 
 /-! ### foreground writes while the rebuild runs
 
